@@ -444,6 +444,11 @@ def pareto(ck: Check, pool):
     ck.extra["pareto_front_raises_when_the_filter_keeps_no_point"] = {
         "no_feasible_point_with_objective": verd[("front", "nothing_to_report")],
         "feasible_candidates_all_duplicated": verd[("front", "nothing_reported_all_candidates_duplicated")]}
+    # ---- specification growth (outside C04 as stated): life cycle of scenarios executed repeatedly through
+    # MDOScenarioAdapter - the adapter's outputs are the optimum of the inner run's recorded history
+    from ..growth import g04_scenario_adapter
+
+    g04_scenario_adapter.run(ck)
 
 
 if __name__ == "__main__":
